@@ -41,8 +41,8 @@ e1('C06', 'presence ticks against subscribe/unsubscribe/close, one channel (conn
 e1('C07', 'subscribe completion against unsubscribe/disconnect, observed by a second subscriber', 'Every interleaving within the bound; the observer\'s join/leave pushes for the actor must alternate starting with join, end consistently with the final subscription state, and match the number of established/ended subscriptions.')
 e1('C08', 'connect, alive ticks, unsubscribe, server disconnect, transport close', 'Every interleaving within the bound; the callback log must show disconnect at most once and after connect, no alive after disconnect and one unsubscribe callback per established subscription that ended. Node shutdown: a connect racing Shutdown (delay-bounded schedule exploration under two default thread orders, oldest-first and newest-first) and connection attempts after Shutdown through the generic API, the SSE handler and the HTTP-stream handler must never end up connected (WebSocket upgrade path not driven).')
 e1('C10', 'publications / joins of other connections against subscribe and unsubscribe (client and server side, positioned and not)', 'Every interleaving within the bound; on the connection\'s frame log no publication/join/leave for the channel may appear outside a subscription bracket. Harness bracketbatch adds per-channel batching (MaxSize / MaxDelay / both / FlushLatestPublication / none) x ReplyWithoutQueue x positioned on the client and server paths with the virtual clock driving the batch timers.')
-claim('C02', 'E2', 'exhaustive enumeration of channel histories (publish/remove/TTL/meta-TTL over a virtual clock, depth-bounded) x subscribe probes on the real Node against a reference log',
-      'Every history up to the stated depth is built on a real node under the virtual clock and probed with every (offset, epoch, limit, filter, reject flag) combination; recovered=true must mean the exact admitted suffix, recovered=false no publications.',
+claim('C02', 'E2+E1', 'exhaustive enumeration of channel histories (publish/remove/TTL/meta-TTL over a virtual clock, depth-bounded) x subscribe probes on the real Node against a reference log; stateless DFS (preemption bound 1-2) over concurrent recoveries and publications with and without UseSingleFlight',
+      'Every history up to the stated depth is built on a real node under the virtual clock and probed with every (offset, epoch, limit, filter, reject flag) combination; recovered=true must mean the exact admitted suffix, recovered=false no publications. Harness recoverrace: two recovering subscribers (same / different positions and epochs) and a publisher interleaved within the bound, each reply must be exact or refused.',
       'One channel, Memory broker, histories of depth <= 4-5, HistorySize 1-3.')
 claim('C03', 'E2', 'exhaustive enumeration of channel histories x cache-recovery probes (client and server-forced, cache-empty handler variants, delta) on the real Node against a reference log',
       'Every history up to the stated depth x every probe; at most one publication (unless delta), it is the newest both filters admit, recovered exactly when the newest publication is in history or the client holds the position.',
